@@ -83,6 +83,8 @@ class SamplingCartesianGridLOS(Model):
         )
 
     def __call__(self, x):
+        if self.start.ndim == 1 and self.end.ndim == 1:  # a single LOS
+            return self._los(x, self.start, self.end)
         in_axes = (None, 0, 0)
         if self.start.ndim < self.end.ndim:
             in_axes = (None, None, 0)
